@@ -1,4 +1,5 @@
 import Reduino.Fw.LcdAnim
+import Reduino.Fw.LcdAnimWrap
 import Reduino.Lemmas.C18
 /-
   C18 — LCD animations never block, stay inside their row, finish unless looping.
@@ -201,6 +202,41 @@ theorem bound_linear (style : Style) (len cols : Nat) :
 theorem inactive_stays (a : Anim) (g : Grid) (cols now : Nat) (h : a.active = false) :
     Fw.tick a g cols now = (a, { grid := g }, false) ∧ Host.tick a g cols now = (a, g, false) := by
   simp [Fw.tick, Host.tick, h]
+
+/-! ### the millisecond counter wraps: the templates' unsigned arithmetic agrees with the natural-number clock -/
+
+/-- unsigned subtraction of counter values is the real elapsed time, as long as that is less than one full turn of the counter -/
+theorem counter_difference (W t t' : Nat) (h : t ≤ t') (hw : t' - t < W) :
+    ((t' % W) + W - (t % W)) % W = t' - t := Lemmas.C18.counter_difference W t t' h hw
+
+/-- one tick: the template on the counter value does what the natural-number model does at the real time -/
+theorem fw_tickW_simulates (W : Nat) (a : Anim) (g : Grid) (cols now : Nat) (h : a.active = true → Agrees W a now) :
+    Fw.tickW W (a.onCounter W) g cols (now % W) =
+      ((Fw.tick a g cols now).1.onCounter W, (Fw.tick a g cols now).2.1, (Fw.tick a g cols now).2.2) :=
+  Lemmas.C18.fw_tickW_simulates' W a g cols now h
+
+/-- **the natural-number clock is sound across the counter's wrap-around.**  For an animation that has not stepped yet
+    (`lastStep = 0`, as every `start` leaves it), ticked at real times `t₀ ≤ t₁ ≤ …` none of which is a multiple of `W` and
+    with consecutive ticks less than `W - speed_ms` apart, the templates' unsigned arithmetic on the counter values
+    `tᵢ % W` produces exactly the cells and the state of the natural-number model — however many times the counter wraps. -/
+theorem fw_run_across_wrap (W cols t0 : Nat) (ts : List Nat) (a : Anim) (g : Grid) (h0 : a.lastStep = 0)
+    (hp : Paced W a.speed t0 (t0 :: ts)) :
+    Fw.ticksW W cols (t0 :: ts) (a.onCounter W, g) =
+      ((Fw.ticks cols (t0 :: ts) (a, g)).1.onCounter W, (Fw.ticks cols (t0 :: ts) (a, g)).2) :=
+  Lemmas.C18.fw_run_across_wrap_from W cols (t0 :: ts) a g t0 hp (Or.inr (Or.inl h0))
+
+theorem fw_start_not_stepped (style : Style) (g : Grid) (cols row speed : Nat) (text : List Char) (loop : Bool) :
+    (Fw.start style g cols row text speed loop).1.lastStep = 0 := by
+  cases style <;> rfl
+
+/-- the hypotheses are met by a run across the wrap of a 32-bit counter -/
+example : Paced (2 ^ 32) 100 (2 ^ 32 - 50) [2 ^ 32 - 50, 2 ^ 32 - 20, 2 ^ 32 + 30, 2 ^ 32 + 90, 2 ^ 32 + 200] := by
+  simp [Paced]
+
+theorem rollover_unsafe_gate_counterexample :
+    let a : Anim := { style := .typewriter, text := ['a', 'b'], row := 0, speed := 100, loop := true, lastStep := 2 ^ 32 - 50 }
+    dueUnsafe (2 ^ 32) a (2 ^ 32 - 40) = true ∧ a.dueW (2 ^ 32) (2 ^ 32 - 40) = false := by
+  decide
 
 example : (fwSteps 8 (fwBound .bounce 3 8) ((Fw.start .bounce (blank 8 2) 8 0 ['a', 'b', 'c'] 0 false).1,
     (Fw.start .bounce (blank 8 2) 8 0 ['a', 'b', 'c'] 0 false).2.grid)).1.active = false := by
